@@ -190,7 +190,7 @@ RC_SRC = ["src/react/react_cache.rs", "src/react/utils.rs", "src/react/commands.
 
 
 def k2(id, harness, props, functions, src, bounds, claim, tiers=("quick", "thorough"), expect="pass", witness=None, unwindset=None,
-       fp_restrict=None, stubs=None):
+       fp_restrict=None, stubs=None, no_native_playback=False):
     d = dict(id=id, engine="k2", harness=harness, props=list(props), expect=expect, functions=functions, src=src,
              bounds=bounds, claim=claim, tiers=list(tiers))
     if witness:
@@ -201,6 +201,8 @@ def k2(id, harness, props, functions, src, bounds, claim, tiers=("quick", "thoro
         d["fp_restrict"] = fp_restrict
     if stubs:
         d["stubs"] = stubs
+    if no_native_playback:
+        d["no_native_playback"] = True
     return d
 
 
@@ -508,15 +510,7 @@ OBLIGATIONS += [
        witness=[["dead_target", "mutation"]]),
 ]
 
-OBLIGATIONS.append(k2("once.wrapper", _k2h("react::react_commands", "once_reactor_runs_once_then_vanishes"), ["C15"],
-                      ["ReactCommands::once", "RawCallbackSystem::run_with_cleanup", "ReactWorldExt::react", "ReactCommands::revoke", "revoke_reactor",
-                       "SystemCommandStorage::take", "SystemCommandCallback::run"],
-                      ["src/react/react_commands.rs", "src/react/extensions.rs", "src/ecs/callbacks.rs", "src/react/react_cache.rs"],
-                      "one-trigger bundle (broadcast); the registration command is set aside and the table written as registration leaves it, with a "
-                      "neighbour reactor; the wrapper is invoked twice; values dropped by the despawn are leaked by the model; the token walk is bounded to 1 entry",
-                      "the wrapper runs the user's reactor on the first invocation only, then its entity is gone and none of its triggers remains "
-                      "registered (the neighbour's does); a second invocation does nothing",
-                      unwindset={"react::react_commands::revoke_reactor": 2}))
+
 
 # K1 obligations superseded by lighter K2 ones or too heavy for the quick tier (measured): restrict to thorough / drop
 # Dropped after measurement (they do not finish within the thorough caps, 14 GB / 1500 s, so keeping them would make a
@@ -558,7 +552,8 @@ OBLIGATIONS.append(k2("once.wrapper", _k2h("react::react_commands", "once_reacto
                       "trigger of the bundle; the first invocation runs the user's reactor exactly once, despawns exactly its own "
                       "entity and revokes exactly its own token; every later invocation runs nothing and revokes nothing",
                       stubs=["ReactCommands::revoke -> record_revoke (counts calls, records the token's id and length; what a revoke "
-                             "removes is decided by the C06 obligations, what the token names by token.every_member)"]))
+                             "removes is decided by the C06 obligations, what the token names by token.every_member)"],
+                      no_native_playback=True, witness=[["once", "twice"], ["once", "self_trigger"]]))
 
 OBLIGATIONS += [
     k2("register.empty_bundle", _k2h("react::react_commands", "register_reactors_empty_bundle"), ["C15", "C07"],
@@ -603,34 +598,40 @@ _RF = ["syscommand_runner", "cleanup_on_abort", "SystemCommandSetup::run", "Syst
        "CobwebCommandQueue::append", "CobwebCommandQueue::pop_front"]
 
 
-def _runner(id, name, props, bounds, claim, tiers=("quick", "thorough"), expect="pass", extra_stub=None):
+_W_ABORT = [["runner", "abort_releases"], ["runner", "vanished_listener"]]
+_W_REPLAY = [["runner", "mixed_kinds"], ["runner", "replay_order"]]
+_W_DEPTH = [["runner", "deep_tree", "200"], ["runner", "mixed_kinds"]]
+
+
+def _runner(id, name, props, bounds, claim, tiers=("quick", "thorough"), expect="pass", extra_stub=None, witness=None):
     return k2(id, _k2h(_RH, name), props, _RF, _RS, bounds, claim, tiers, expect=expect, fp_restrict=RUNNER_FP,
-              stubs=RUNNER_STUBS + ([extra_stub] if extra_stub else []))
+              stubs=RUNNER_STUBS + ([extra_stub] if extra_stub else []), witness=witness,
+              no_native_playback=bool(extra_stub))
 
 
 OBLIGATIONS += [
     _runner("runner.missing_root", "runner_step_missing_target_root", ["C02", "C11", "C18", "C05"],
             "root call (tree position 0); target id never existed; one other idle system",
             "a command for a missing system runs no system, runs its setup then its cleanup exactly once (event data claimed and "
-            "released), leaves the counter, the postponement buffer and other systems untouched"),
+            "released), leaves the counter, the postponement buffer and other systems untouched", witness=_W_ABORT),
     _runner("runner.stale_nested", "runner_step_stale_target_nested", ["C02", "C11", "C18", "C05"],
             "inside a tree (position 2); target is a stale id (same index, older generation) of a live system; one postponed "
             "command of another system present", "as runner.missing_root; the other system's postponed command is not touched",
-            ("thorough",)),
+            ("thorough",), witness=_W_ABORT),
     _runner("runner.entity_without_system", "runner_step_entity_without_system", ["C11", "C18", "C05", "C02"],
             "target entity alive but without a system; tree position symbolic in {0, 3}",
-            "a command aimed at a live entity that carries no system still runs setup then cleanup once; the entity is left alone"),
+            "a command aimed at a live entity that carries no system still runs setup then cleanup once; the entity is left alone", witness=_W_ABORT),
     _runner("runner.busy_nested", "runner_step_target_busy_nested", ["C02", "C09", "C12", "C04", "C03"],
             "target currently executing (callback out); tree position 1; one command of another system already postponed",
             "the command is appended to the postponement buffer unchanged (own command, setup, cleanup) behind what is there; "
-            "nothing runs now - no system, no setup, no cleanup"),
+            "nothing runs now - no system, no setup, no cleanup", witness=_W_REPLAY),
     _runner("runner.busy_root", "runner_step_target_busy_root", ["C11", "C02", "C18"],
             "target's callback lost; tree position 0", "at the root a command whose system is lost is aborted with setup+cleanup, "
-            "nothing is postponed", ("thorough",)),
+            "nothing is postponed", ("thorough",), witness=_W_ABORT),
     _runner("runner.plain_run", "runner_step_plain_run", ["C02", "C04", "C09", "C11", "C13"],
             "idle target; tree position = ANY usize below usize::MAX (symbolic)",
             "setup, the system exactly once, its cleanup, in-line; the callback is back in its storage; counter reset at the root, "
-            "advanced by one inside a tree - at every depth (no depth at which a command is dropped)"),
+            "advanced by one inside a tree - at every depth (no depth at which a command is dropped)", witness=_W_DEPTH),
 ]
 _REPLAY = ("the replay step on the REAL runner body with its nested runner calls recorded (generated twin "
            "syscommand_runner_top + #[kani::stub(syscommand_runner, record_nested)]): A runs once with the caller's setup/cleanup and "
@@ -648,12 +649,13 @@ for k, tiers_root, tiers_nested in [(1, ("thorough",), ("quick", "thorough")), (
             _REPLAY, tiers,
             extra_stub="syscommand_runner (the ORIGINAL, called from the twin's replay closure) -> record_nested: records "
                        "(command, setup reactor, setup fn, cleanup fn) and logs one mark; the nested call's own behaviour is "
-                       "decided by runner.plain_run / runner.busy_* / runner.missing_*"))
+                       "decided by runner.plain_run / runner.busy_* / runner.missing_*",
+            witness=_W_REPLAY))
 OBLIGATIONS.append(_runner("runner.nested_inline", "runner_nested_inline", ["C09", "C02", "C11"],
                            "two systems; A's run queues one command for the idle B through Commands and flushes the world (the model's "
                            "per-command flush, E1); root call",
                            "B runs in-line, exactly once, before A's run continues; both callbacks are back, counter reset, nothing "
-                           "postponed (two real runner levels through the real SystemCommand::apply)", ("thorough",)))
+                           "postponed (two real runner levels through the real SystemCommand::apply)", ("thorough",), witness=_W_DEPTH))
 OBLIGATIONS.append(_runner("runner.witness", "runner_step_witness", ["C02", "C09", "C11"], "-", "vacuity twin of the runner step family",
                            expect="fail"))
 
@@ -682,7 +684,8 @@ for (nm, fn, props, what) in [
 ]:
     OBLIGATIONS.append(k2(f"cmd.apply_{nm}", _k2h("react::commands", f"apply_{nm}"), props, [fn], _CS,
                           "target symbolically a live entity or a stale id; all four trackers empty before", what,
-                          stubs=_APPLY_STUB))
+                          stubs=_APPLY_STUB, no_native_playback=True,
+                          witness=[["runner", "vanished_listener"], ["runner", "abort_releases"], ["runner", "mixed_kinds"], ["runner", "replay_order"]]))
 for (nm, fns, props, bounds, what, tiers) in [
     ("broadcast_event", ["start_broadcast_event", "end_broadcast_event", "try_cleanup_data_entity", "EventAccessTracker::start",
                          "EventAccessTracker::end", "DataEntityCounter::decrement"], ["C05", "C03", "C04", "C11"],
@@ -704,7 +707,8 @@ for (nm, fns, props, bounds, what, tiers) in [
      "the handle keeps the reactor while the reaction is pending and running; end releases it and the reactor reaches the "
      "collector exactly once", ("quick", "thorough")),
 ]:
-    OBLIGATIONS.append(k2(f"cmd.pair_{nm}", _k2h("react::commands", f"pair_{nm}"), props, fns, _CS, bounds, what, tiers))
+    OBLIGATIONS.append(k2(f"cmd.pair_{nm}", _k2h("react::commands", f"pair_{nm}"), props, fns, _CS, bounds, what, tiers,
+                          witness=[["runner", "mixed_kinds"], ["runner", "vanished_listener"], ["runner", "abort_releases"]]))
 
 #  obligations refcount.order_*, mode.*, token.unique_entities, rc.entity_event_* / rc.insertion_* (iter_rtype, count in context);
 #  gc.*, revoke.routing_*, entreactors.remove_shape*, rc.despawn_dispatch_*: written, compile, exceed the caps.
@@ -734,6 +738,16 @@ _QUICK_ONLY_FOR = {
     "sysevt.drain3": ["C12"], "evt.drain3": ["C03"], "desp.step": ["C12", "C03"], "ent.step": ["C12", "C03"],
     "desp.witness": ["C12"], "ent.witness": ["C12"], "bundle.reactor_types": ["C06", "C16"],
     "rc.broadcast_0_2": ["C01", "C05"], "rc.broadcast_2_1": ["C01", "C05", "C03"],
+    # runner steps / command application / setup-cleanup pairs (measured 25-150 s each)
+    "runner.replay_1_nested": ["C09", "C12"], "runner.replay_2_root": ["C02", "C11", "C05"],
+    "runner.missing_root": ["C02", "C18"], "runner.entity_without_system": ["C11", "C05"],
+    "runner.busy_nested": ["C02", "C09", "C12"], "runner.plain_run": ["C02", "C13", "C04", "C09"], "runner.witness": ["C02", "C09"],
+    "cmd.apply_system_command": ["C02"], "cmd.apply_event_command": ["C05", "C12"], "cmd.apply_reaction_resource": ["C02"],
+    "cmd.apply_reaction_entity": ["C03"], "cmd.apply_reaction_despawn": ["C08"], "cmd.apply_reaction_entity_event": ["C16"],
+    "cmd.apply_reaction_broadcast": ["C05", "C18"],
+    "cmd.pair_broadcast_event": ["C05"], "cmd.pair_system_event": ["C04"], "cmd.pair_despawn_reaction": ["C07"],
+    "rc.register_broadcast_2_1": ["C01"], "rc.register_mutation_1_1_1": ["C15"], "rc.register_despawn_by_entity": ["C08"],
+    "register.two_triggers": ["C15"], "register.empty_bundle": ["C15"],
 }
 
 
